@@ -74,18 +74,6 @@ def textVarOK (ft : Feat) (ci : ClassInfo) (v : XmlVar) : Bool :=
    | none => false) &&
   (v.init || fixedOK v) && fieldAgreesN ci v
 
-/-- the classes whose instances an element var of declared class `c` may hold -/
-def classesFor (ft : Feat) (Γ : Ctx) (c : ClassId) : List ClassId :=
-  if ft.inherit then c :: (Γ.classes.map (·.id)).filter (fun k => k ≠ c && Γ.isSubclass k c) else [c]
-
-/-- `nsAgree` of fragment F1 for every class a var may hold (see `classesFor`) -/
-def nsAgreeN (ft : Feat) (Γ : Ctx) (m : XmlMeta) (q : QN) : Bool :=
-  m.elementVars.all fun w =>
-    match w.clazz with
-    | none => true
-    | some c => (classesFor ft Γ c).all fun k =>
-        decide ((metaOf Γ k (targetUri q)).map dropQ = (metaOf Γ k (targetUri m.qname)).map dropQ)
-
 def elemVarOK (ft : Feat) (Γ : Ctx) (m : XmlMeta) (ci : ClassInfo) (v : XmlVar) : Bool :=
   v.isElement && varBase ft v && decide (1 ≤ v.index) &&
   decide (m.elements.find? (·.1 = v.qname) = some (v.qname, [v])) &&
@@ -99,19 +87,13 @@ def elemVarOK (ft : Feat) (Γ : Ctx) (m : XmlMeta) (ci : ClassInfo) (v : XmlVar)
      (match primTypeOf v with
       | some t =>
         if v.tokens || v.listElement then
-          decide (v.default = .listFactory) &&
-          -- an empty nillable list of token lists is written as one `xsi:nil` element
-          !(v.tokens && v.listElement && v.nillable)
+          decide (v.default = .listFactory)
         else scalarDefault v.default t && (!v.nillable || decide (v.default = .none))
       | none => false)
    | some c =>
      !v.tokens && decide (v.types = [.cls c]) &&
      (if v.listElement then decide (v.default = .listFactory) else decide (v.default = .none)) &&
-     (metaOf Γ c (targetUri m.qname)).isSome &&
-     (classesFor ft Γ c).all (fun k =>
-       match metaOf Γ k (targetUri m.qname) with
-       | some m' => nsAgreeN ft Γ m' v.qname
-       | none => true)) &&
+     (metaOf Γ c (targetUri m.qname)).isSome) &&
   (v.init || fixedOK v) && fieldAgreesN ci v
 
 /-- an `Attributes` map: a `dict` field with default `{}` -/
@@ -218,8 +200,7 @@ def textValOK (e : BEnv) (ci : ClassInfo) (var : XmlVar) (nil : Bool) (x : Val) 
   (var.init || fixedVal var x) &&
   match primTypeOf var with
   | some t =>
-    -- an empty token list in an `xsi:nil` element comes back as `None`
-    if var.tokens then tokensOK e t x && (!nil || x.truthy)
+    if var.tokens then tokensOK e t x
     else
       (match x with
        | .none => nil || fdNone ci var.name
@@ -232,10 +213,10 @@ def primItemOK (var : XmlVar) (t : PT) : Val → Bool
   | .none => var.nillable        -- `xsi:nil`; comes back as the var default, which is `None`
   | .prim p =>
     primHasType p t &&
-    -- an empty `str` comes back as the var default, or as `None` under a nillable var
-    (decide (p ≠ .str []) ||
-      (!var.nillable && (var.listElement || decide (var.default = .none) ||
-        decide (var.default = .val (.str [])))))
+    -- an empty `str` comes back as the var default (`None` under a nillable var: then the empty
+    -- element without `xsi:nil` is `""`)
+    (decide (p ≠ .str []) || var.listElement || decide (var.default = .none) ||
+      decide (var.default = .val (.str [])))
   | _ => false
 
 /-- the name of a class survives as an `xsi:type` value (`prefix:name` resolved by
@@ -247,24 +228,22 @@ def typeNameOK (e : BEnv) (t : QN) : Bool :=
 
 /-- an object under an element var of declared class `c` (`pns`: the namespace the parser looks the
 metadata up under): an instance of `c` itself, or (`inh`) of a proper subclass `cls` whose qualified
-name differs from the element name (otherwise no `xsi:type` is written) and leads
-`XmlContext.fetch` from `c` back to `cls`.  `rec cls nl xt` checks the instance. -/
-def objOK (inh : Bool) (Γ : Ctx) (pns : Option Str) (var : XmlVar) (c : ClassId)
-    (rec : ClassId → Bool → Option QN → Val → Bool) (y : Val) : Bool :=
+name leads `XmlContext.fetch` from `c` back to `cls`.  `rec cls xt` checks the instance. -/
+def objOK (inh : Bool) (Γ : Ctx) (pns : Option Str) (c : ClassId)
+    (rec : ClassId → Option QN → Val → Bool) (y : Val) : Bool :=
   match y with
   | .obj cls _ =>
-    if cls = c then rec c var.nillable none y
+    if cls = c then rec c none y
     else
       inh && Γ.isSubclass cls c &&
       (match metaOf Γ cls pns with
        | some ms =>
          (match ms.targetQName with
           | some t =>
-            decide (t ≠ var.qname) &&
             (match Γ.fetch c pns (some t) with
              | .ok m2 => decide (m2 = ms)
              | .error _ => false) &&
-            rec cls var.nillable (some t) y
+            rec cls (some t) y
           | none => false)
        | none => false)
   | _ => false
@@ -275,7 +254,7 @@ def clsItemOK (var : XmlVar) (clsNillable : Bool) (rec : Val → Bool) : Val →
   | y => rec y
 
 def elemValOK (inh : Bool) (e : BEnv) (Γ : Ctx) (m : XmlMeta) (ci : ClassInfo) (var : XmlVar)
-    (rec : ClassId → Bool → Option QN → Val → Bool) (x : Val) : Bool :=
+    (rec : ClassId → Option QN → Val → Bool) (x : Val) : Bool :=
   (var.init || fixedVal var x) &&
   match var.clazz with
   | none =>
@@ -302,12 +281,12 @@ def elemValOK (inh : Bool) (e : BEnv) (Γ : Ctx) (m : XmlMeta) (ci : ClassInfo) 
      | some m' =>
        if var.listElement then
          (match x with
-          | .list xs => xs.all (clsItemOK var m'.nillable (objOK inh Γ (targetUri m.qname) var c rec))
+          | .list xs => xs.all (clsItemOK var m'.nillable (objOK inh Γ (targetUri m.qname) c rec))
           | _ => false)
        else
          (match x with
           | .none => (var.nillable && !m'.nillable) || (!var.nillable && fdNone ci var.name)
-          | .obj .. => objOK inh Γ (targetUri m.qname) var c rec x
+          | .obj .. => objOK inh Γ (targetUri m.qname) c rec x
           | _ => false))
 
 /-- the text value is written as character data (possibly empty): the start tag is flushed
@@ -317,27 +296,13 @@ def textHasData : Val → Bool
   | .list (_ :: _) => true
   | _ => false
 
-/-- the field value produces at least one child element (an empty wrapper element is not counted) -/
-def emitsChild (var : XmlVar) (x : Val) : Bool :=
-  match x with
-  | .none => var.nillable
-  | .list xs => !xs.isEmpty || (var.tokens && var.nillable)
-  | _ => true
-
-/-- the element must not be written as `xsi:nil`: under a nillable var a class that is not nillable
-itself would come back as `None`, and an `Attributes` map would capture the `xsi:nil` attribute -/
-def needContent (nl : Bool) (m : XmlMeta) : Bool :=
-  (nl && !m.nillable) || ((nl || m.nillable) && !m.anyAttributes.isEmpty)
-
-/-- `v` is an instance of class `c` (metadata built under `pns`) inside the fragment; `nl` says
-that the element is written for a nillable var (then a class that is not nillable itself needs
-some content, otherwise the element is `xsi:nil` and comes back as `None`).
-The `Nat` argument bounds the nesting depth. -/
-def valObjN (inh : Bool) (e : BEnv) (Γ : Ctx) : Nat → Option Str → ClassId → Bool → Option QN → Val → Bool
-  | 0, _, _, _, _, _ => false
-  | n + 1, pns, c, nl, xt, .obj cls fields =>
+/-- `v` is an instance of class `c` (metadata built under `pns`) inside the fragment, written with
+`xsi:type` `xt`.  The `Nat` argument bounds the nesting depth. -/
+def valObjN (inh : Bool) (e : BEnv) (Γ : Ctx) : Nat → Option Str → ClassId → Option QN → Val → Bool
+  | 0, _, _, _, _ => false
+  | n + 1, pns, c, xt, .obj cls fields =>
     decide (cls = c) &&
-    -- written with `xsi:type`: the name must survive, and an `Attributes` map would capture it
+    -- written with `xsi:type`: the name must survive
     (match xt with | some t => inh && typeNameOK e t | none => true) &&
     (match Γ.find c with
      | none => false
@@ -346,23 +311,18 @@ def valObjN (inh : Bool) (e : BEnv) (Γ : Ctx) : Nat → Option Str → ClassId 
        | none => false
        | some m =>
          decide (fields.map (·.1) = ci.fields.map (·.name)) &&
-         (xt.isNone || m.anyAttributes.isEmpty) &&
          m.attributeVars.all (fun var => attrValOK e Γ m ci var (look fields var.name)) &&
          (match m.text with
-          | some tv =>
-            textValOK e ci tv (nl || m.nillable) (look fields tv.name) &&
-            (!needContent nl m || textHasData (look fields tv.name))
+          | some tv => textValOK e ci tv m.nillable (look fields tv.name)
           | none =>
             m.elementVars.all (fun var =>
-              elemValOK inh e Γ m ci var (valObjN inh e Γ n (targetUri m.qname)) (look fields var.name)) &&
-            (!needContent nl m ||
-              m.elementVars.any (fun var => emitsChild var (look fields var.name)))))
-  | _ + 1, _, _, _, _, _ => false
+              elemValOK inh e Γ m ci var (valObjN inh e Γ n (targetUri m.qname)) (look fields var.name))))
+  | _ + 1, _, _, _, _ => false
 
 /-- the value-level side of the fragments (`v.size` bounds the nesting depth of `v`); `inh`: element
 vars may hold instances of proper subclasses of their declared class -/
 def valOKI (inh : Bool) (e : BEnv) (Γ : Ctx) (c : ClassId) (v : Val) : Bool :=
-  valObjN inh e Γ v.size none c false none v
+  valObjN inh e Γ v.size none c none v
 
 /-- every object is an instance of the declared class of its var -/
 def valOK (e : BEnv) (Γ : Ctx) (c : ClassId) (v : Val) : Bool := valOKI false e Γ c v
